@@ -13,6 +13,7 @@ from vlib import gen, sse
 from vlib.common import exc_site
 
 LEVEL = "exploration"
+INSITU_OWNED = ("insitu:aes-iv-reuse",)
 SHARD_TIMEOUT = {"quick": 240, "thorough": 1500}
 
 
